@@ -236,6 +236,47 @@ pub const GROUPS: &[(&str, &[(&str, &[Sel])])] = &[
             &[Sel::Method("RenetClient", "update"), Sel::Method("RenetClient", "process_packet")],
         )],
     ),
+    // the server's connection table and event queue
+    (
+        "Server",
+        &[
+            ("renet/src/lib.rs", &[Sel::TypeAlias("ClientId")]),
+            ("renet/src/error.rs", &[Sel::Struct("ClientNotFound")]),
+            (
+                "renet/src/server.rs",
+                &[
+                    Sel::Enum("ServerEvent"),
+                    Sel::Struct("RenetServer"),
+                    Sel::Method("RenetServer", "new"),
+                    Sel::Method("RenetServer", "add_connection"),
+                    Sel::Method("RenetServer", "get_event"),
+                    Sel::Method("RenetServer", "has_connections"),
+                    Sel::Method("RenetServer", "disconnect_reason"),
+                    Sel::Method("RenetServer", "remove_connection"),
+                    Sel::Method("RenetServer", "disconnect"),
+                    Sel::Method("RenetServer", "disconnect_all"),
+                    Sel::Method("RenetServer", "broadcast_message"),
+                    Sel::Method("RenetServer", "broadcast_message_except"),
+                    Sel::Method("RenetServer", "channel_available_memory"),
+                    Sel::Method("RenetServer", "can_send_message"),
+                    Sel::Method("RenetServer", "send_message"),
+                    Sel::Method("RenetServer", "receive_message"),
+                    Sel::Method("RenetServer", "clients_id_iter"),
+                    Sel::Method("RenetServer", "clients_id"),
+                    Sel::Method("RenetServer", "disconnections_id_iter"),
+                    Sel::Method("RenetServer", "disconnections_id"),
+                    Sel::Method("RenetServer", "connected_clients"),
+                    Sel::Method("RenetServer", "is_connected"),
+                    Sel::Method("RenetServer", "update"),
+                    Sel::Method("RenetServer", "get_packets_to_send"),
+                    Sel::Method("RenetServer", "process_packet_from"),
+                    Sel::Method("RenetServer", "new_local_client"),
+                    Sel::Method("RenetServer", "disconnect_local_client"),
+                    Sel::Method("RenetServer", "process_local_client"),
+                ],
+            ),
+        ],
+    ),
     (
         "TokenTable",
         &[(
@@ -355,16 +396,37 @@ pub const WHILE_FUEL: &[(&str, &str, &[&str])] = &[
 
 /// `for v in <hash map>.values_mut()` loops that are accepted although the iteration order of a `HashMap` is
 /// unspecified: (file, fn, receiver text, justification).  The translator ADDITIONALLY checks what the justification
-/// claims: the body assigns nothing but (through) the loop variable and has no `break` / `continue` / `return` /
-/// `?`, so the rounds commute and the final map does not depend on their order (the generated loop visits the
+/// claims: the body assigns nothing but (through) the loop variable and has no `break` / `return` / `?` / labelled
+/// jump (a plain `continue` only ends its own round), so the rounds commute and the final map does not depend on their order (the generated loop visits the
 /// values in key order; which of several panicking rounds fires first is the only observable difference, and panics
 /// are compared up to their site).
-pub const HASHMAP_VALUES_MUT_OK: &[(&str, &str, &str, &str)] = &[(
-    "renet/src/remote_connection.rs",
-    "RenetClient::update",
-    "self.receive_unreliable_channels",
-    "each iteration touches only its own value",
-)];
+pub const HASHMAP_VALUES_MUT_OK: &[(&str, &str, &str, &str)] = &[
+    (
+        "renet/src/remote_connection.rs",
+        "RenetClient::update",
+        "self.receive_unreliable_channels",
+        "each iteration touches only its own value",
+    ),
+    ("renet/src/server.rs", "RenetServer::disconnect_all", "self.connections", "each iteration touches only its own connection"),
+    ("renet/src/server.rs", "RenetServer::broadcast_message", "self.connections", "each iteration touches only its own connection"),
+    (
+        "renet/src/server.rs",
+        "RenetServer::broadcast_message_except",
+        "self.connections",
+        "each iteration touches only its own connection (the key is only compared)",
+    ),
+    ("renet/src/server.rs", "RenetServer::update", "self.connections", "each iteration touches only its own connection"),
+];
+
+/// read-only `hash_map.iter()` chains that are accepted although the iteration order of a `HashMap` is unspecified:
+/// (file, fn, receiver text, justification).  The generated code visits the bindings in key order.  Either the result
+/// does not depend on the order (`count()`), or it exposes the order and the equivalence theorems claim it only up
+/// to a permutation (see the header of `Base/RustSem.lean`).
+pub const HASHMAP_ITER_ORDER_OK: &[(&str, &str, &str, &str)] = &[
+    ("renet/src/server.rs", "RenetServer::clients_id_iter", "self.connections", "result claimed up to permutation"),
+    ("renet/src/server.rs", "RenetServer::disconnections_id_iter", "self.connections", "result claimed up to permutation"),
+    ("renet/src/server.rs", "RenetServer::connected_clients", "self.connections", "`count()` does not depend on the order"),
+];
 
 /// External types that are not translated but mapped to an opaque RustSem type
 /// (last path segments, Lean name).
